@@ -40,3 +40,11 @@ def is_enum(v):
 def is_placeholder(v):
     import betterproto
     return v is betterproto.PLACEHOLDER
+
+
+def float_is_zero(v):
+    return v == 0.0
+
+
+def msg_is_default(v):
+    return v == type(v)()
